@@ -72,15 +72,15 @@ type Package struct {
 	Files map[string]string
 }
 
-func Basic(n string) *Type  { return &Type{K: KBasic, Basic: n} }
-func Ptr(e *Type) *Type     { return &Type{K: KPtr, Elem: e} }
-func Slice(e *Type) *Type   { return &Type{K: KSlice, Elem: e} }
-func Array(n int, e *Type) *Type { return &Type{K: KArray, Len: n, Elem: e} }
-func Map(k, v *Type) *Type  { return &Type{K: KMap, Key: k, Elem: v} }
-func Struct(f ...*Field) *Type { return &Type{K: KStruct, Fields: f} }
-func Named(d *Decl) *Type   { return &Type{K: KNamed, Decl: d} }
+func Basic(n string) *Type           { return &Type{K: KBasic, Basic: n} }
+func Ptr(e *Type) *Type              { return &Type{K: KPtr, Elem: e} }
+func Slice(e *Type) *Type            { return &Type{K: KSlice, Elem: e} }
+func Array(n int, e *Type) *Type     { return &Type{K: KArray, Len: n, Elem: e} }
+func Map(k, v *Type) *Type           { return &Type{K: KMap, Key: k, Elem: v} }
+func Struct(f ...*Field) *Type       { return &Type{K: KStruct, Fields: f} }
+func Named(d *Decl) *Type            { return &Type{K: KNamed, Decl: d} }
 func RawType(k Kind, s string) *Type { return &Type{K: k, Raw: s} }
-func F(name string, t *Type) *Field { return &Field{Name: name, T: t} }
+func F(name string, t *Type) *Field  { return &Field{Name: name, T: t} }
 
 // Under returns the underlying type (resolving named types).
 func (t *Type) Under() *Type {
